@@ -32,6 +32,7 @@ CLOSE_ONLY = {
     "interpreter::bytecode_vm::BytecodeVM::handle_error_with_trampoline_unwind": "frame pop on error unwind",
     "interpreter::bytecode_vm::BytecodeVM::find_exception_handler": "pops block scopes opened inside the try region being left",
     "interpreter::bytecode_vm::BytecodeVM::unwind_scopes_to": "pops the block scopes a jump leaves (break / continue / return / exception), added with fix 9f8131d",
+    "interpreter::Interpreter::abort_active_execution": "disposes of a run the host stopped stepping: empties what the dead run pushed (C11 R6), added with fix fed24c2",
 }
 # dispatcher whose openers/closers are separate opcode arms: pairing is at bytecode level
 DISPATCHERS = {"interpreter::bytecode_vm::BytecodeVM::execute_op": "Op::PushScope / Op::PopScope arms; paired by the compiler (C01 R3)"}
